@@ -172,6 +172,20 @@ func (p *sparser) postfix(x *SNode) *SNode {
 			if t.k != "id" {
 				panic("selector expects identifier")
 			}
+			if x.Op == "ident" && p.isOp("(") {
+				// qualified predicate call pkg.Name(args)
+				p.next()
+				n := &SNode{Op: "call", Name: x.Name + "." + t.s}
+				for !p.isOp(")") {
+					n.Args = append(n.Args, p.expr(0))
+					if p.isOp(",") {
+						p.next()
+					}
+				}
+				p.expect(")")
+				x = n
+				continue
+			}
 			x = &SNode{Op: "sel", Name: t.s, Args: []*SNode{x}}
 		case p.isOp("["):
 			p.next()
@@ -332,13 +346,14 @@ type FuncSpec struct {
 	Modifies []ModItem
 	HasMod   bool
 	Allocs   bool
+	AllocList []string
 	Loops    map[int]*LoopSpec
 	Inline   bool // contract only used when verifying; callers inline the body
 	Trusted  bool // contract assumed, body not verified (listed in evidence)
 	Asserts  map[string][]Clause // keyed "call:<callee>:<n>" — hints assumed+proved before a call
 	File     string
 	Line     int
-	Cases    [][]Clause // optional "case" splits: each case is an extra requires-set verified separately
+	Cases    []Clause // optional case split: the body is verified once per case (param == constant cases are substituted)
 }
 
 type PredDef struct {
@@ -356,8 +371,10 @@ type LemmaDef struct {
 	Props []string
 }
 
-var clauseKW = map[string]bool{"pred": true, "func": true, "lemma": true, "props": true, "requires": true,
-	"modifies": true, "allocs": true, "ensures": true, "loop": true, "inline": true, "trusted": true, "assert": true}
+var modsets = map[string]string{}
+
+var clauseKW = map[string]bool{"modset": true, "pred": true, "func": true, "lemma": true, "props": true, "requires": true,
+	"modifies": true, "allocs": true, "ensures": true, "loop": true, "inline": true, "trusted": true, "assert": true, "case": true}
 
 func (P *Program) loadContracts() error {
 	for name, pkg := range P.Pkgs {
@@ -450,6 +467,10 @@ func (P *Program) loadContractFile(pkg, file string) error {
 	}
 	for _, rc := range raws {
 		switch rc.kw {
+		case "modset":
+			k := strings.Index(rc.text, "=")
+			modsets[pkg+"."+strings.TrimSpace(rc.text[:k])] = strings.TrimSpace(rc.text[k+1:])
+			cur = nil
 		case "pred":
 			// Name(a, b) = body
 			k := strings.Index(rc.text, "=")
@@ -530,6 +551,23 @@ func (P *Program) loadContractFile(pkg, file string) error {
 				cur.Trusted = true
 			case "allocs":
 				cur.Allocs = true
+				for _, it := range splitTop(rc.text, ',') {
+					if strings.HasPrefix(it, "@") {
+						ms, ok := modsets[pkg+"."+it[1:]]
+						if !ok {
+							return fmt.Errorf("%s:%d: unknown modset %s", file, rc.line, it)
+						}
+						cur.AllocList = append(cur.AllocList, splitTop(ms, ',')...)
+					} else if it != "" {
+						cur.AllocList = append(cur.AllocList, it)
+					}
+				}
+			case "case":
+				c, err := mkClause(rc.text, rc.line)
+				if err != nil {
+					return err
+				}
+				cur.Cases = append(cur.Cases, c)
 			case "requires", "ensures":
 				c, err := mkClause(rc.text, rc.line)
 				if err != nil {
@@ -542,7 +580,19 @@ func (P *Program) loadContractFile(pkg, file string) error {
 				}
 			case "modifies":
 				cur.HasMod = true
+				var items []string
 				for _, it := range splitTop(rc.text, ',') {
+					if strings.HasPrefix(it, "@") {
+						ms, ok := modsets[pkg+"."+it[1:]]
+						if !ok {
+							return fmt.Errorf("%s:%d: unknown modset %s", file, rc.line, it)
+						}
+						items = append(items, splitTop(ms, ',')...)
+					} else {
+						items = append(items, it)
+					}
+				}
+				for _, it := range items {
 					if it == "" || it == "nothing" {
 						continue
 					}
@@ -553,8 +603,15 @@ func (P *Program) loadContractFile(pkg, file string) error {
 						first = it[:k]
 					}
 					isType := false
-					if p := P.Pkgs[pkg]; p != nil {
-						if o := p.Types.Scope().Lookup(first); o != nil {
+					lookPkg, lookName := pkg, first
+					if _, isPkg := P.Pkgs[first]; isPkg && first != pkg {
+						rest := strings.Split(it, ".")
+						if len(rest) >= 2 {
+							lookPkg, lookName = first, rest[1]
+						}
+					}
+					if p := P.Pkgs[lookPkg]; p != nil {
+						if o := p.Types.Scope().Lookup(lookName); o != nil {
 							if _, ok := o.(interface{ IsAlias() bool }); ok {
 								isType = true
 							}
@@ -563,16 +620,15 @@ func (P *Program) loadContractFile(pkg, file string) error {
 					if isType || strings.HasPrefix(it, "elems(") || strings.HasPrefix(it, "map(") {
 						mi.Whole = it
 					} else {
-						k := strings.LastIndex(it, ".")
-						if k < 0 {
-							return fmt.Errorf("%s:%d: bad modifies item %q", file, rc.line, it)
-						}
-						n, err := parseSpec(it[:k])
+						star := strings.HasSuffix(it, ".*")
+						n, err := parseSpec(strings.TrimSuffix(it, ".*"))
 						if err != nil {
 							return fmt.Errorf("%s:%d: %v", file, rc.line, err)
 						}
 						mi.Obj = n
-						mi.Field = it[k+1:]
+						if star {
+							mi.Field = "*"
+						}
 					}
 					cur.Modifies = append(cur.Modifies, mi)
 				}
